@@ -110,3 +110,18 @@ func Try(f func()) (panicked bool, what string) {
 	f()
 	return
 }
+
+// Clip shortens a string for logging and makes it ASCII-safe.
+func Clip(s string, n int) string {
+	out := make([]rune, 0, n)
+	for _, r := range s {
+		if len(out) >= n {
+			break
+		}
+		if r < 0x20 || r == 0x7f || r > 0xfffd {
+			r = '?'
+		}
+		out = append(out, r)
+	}
+	return string(out)
+}
